@@ -62,6 +62,8 @@ def gen_filter(rng, cls, names, quad=False):
         sub = [n for n in names if n != ".notdef"]
         rng.shuffle(sub)
         d["args"] = [sub[: rng.randint(0, min(3, len(sub)))]]
+    if "pre" not in d and rng.random() < 0.5:
+        d["pre"] = rng.random() < 0.5
     if cls not in NO_INCLUDE and names:
         x = rng.random()
         sub = list(names)
@@ -119,7 +121,8 @@ def gen_scenario(seed, profile=None):
             if rng.random() < 0.5:
                 force.append("composites")
             specs.append(world.gen_family(rng, force=force, forbid=[f for f in ("color",) if f not in force],
-                                          max_glyphs=12, n_masters=rng.choice([1, 2, 2, 3])))
+                                          max_glyphs=12, n_masters=rng.choice([1, 2, 2, 2, 3]),
+                                          p_sparse=0.7))
     infos = [gen07.world_info(s) for s in specs]
     names = sorted(set().union(*[set(i["glyphs"]) for i in infos]))
     quad = any(("quadratic" in s.get("features_on", [])) or "corpus" in s for s in specs)
@@ -139,9 +142,9 @@ def gen_scenario(seed, profile=None):
         wi = rng.randrange(nworlds)
         info = infos[wi]
         x = rng.random()
-        if x < 0.2 and info["has_ds"]:
-            kind = rng.choice(["ttf", "otf"])
-            k = rng.randint(0, 2)
+        if x < 0.3 and info["has_ds"]:
+            kind = rng.choice(["ttf", "ttf", "otf"])
+            k = rng.randint(0, 3)
             fl = [rng.randrange(len(filters)) for _ in range(k)]
             fl = [j for j in fl if filters[j]["cls"] not in ("SkipExportGlyphsFilter", "SkipExportGlyphsIFilter")]
             gl = info["glyphs"]
@@ -305,16 +308,33 @@ def _do_preproc(sess_filters, w, st, forced):
         base = cls
 
         class Forced(base):  # noqa: D401
+            """Reference run: after *every* filter a brand-new Instantiator is
+            built over the current glyph sets, so nothing cached in the
+            long-lived one (variators, interpolated layers) can be stale."""
+
+            def _fresh_instantiator(self):
+                from ufo2ft.instantiator import Instantiator
+
+                if self.instantiator is not None:
+                    inst = Instantiator.from_designspace(self._verif_ds, round_geometry=False,
+                                                         do_info=False, do_kerning=False)
+                    inst.replace_source_layers(self.glyphSets)
+                    self.instantiator = inst
+
+            def _update_instantiator(self):
+                self._fresh_instantiator()
+
             def _run(self, *filters):
                 r = super()._run(*filters)
-                self._update_instantiator()
+                self._fresh_instantiator()
                 return r
 
             def _run_interpolatable(self, f):
                 r = super()._run_interpolatable(f)
-                self._update_instantiator()
+                self._fresh_instantiator()
                 return r
 
+        Forced._verif_ds = w.ds
         cls = Forced
     ufos = [s.font for s in w.ds.sources]
     lns = [s.layerName for s in w.ds.sources]
